@@ -1,9 +1,12 @@
 """C12 — state elimination yields a regular expression for the same language.
 
 Property (evaluated on the real code, independently of the model): for a valid DFA / NFA with a
-non-empty language over an alphabet without reserved regex characters,
-`GNFA.from_dfa/from_nfa(m).to_regex()` is a string that the library's own `NFA.from_regex`
-accepts and whose language equals the language of `m`.  The language comparison is done here by
+non-empty language, `GNFA.from_dfa/from_nfa(m).to_regex()` is a string that the library's own
+`NFA.from_regex` accepts and whose language equals the language of `m`.  Alphabets that contain a
+reserved regex character or a white-space character are INSIDE this domain; the code violates the
+property there (the output syntax has no escaping) — that is the open finding
+`C12:alphabet-has-reserved-regex-character`, produced on every run by the family
+`reserved_alphabet` below and proved on the model by `C12_reserved_alphabet_fails`.  The language comparison is done here by
 subset construction + product BFS over the real objects' dicts (shortest distinguishing word),
 and every reported word is re-confirmed through the real `accepts_input`.
 
@@ -29,6 +32,7 @@ from typing import Any, Dict, List, Optional, Tuple
 from automata.fa.dfa import DFA
 from automata.fa.gnfa import GNFA
 from automata.fa.nfa import NFA
+from automata.regex.parser import RESERVED_CHARACTERS
 
 from harness import gen
 from harness.common import Ctx, InfraError, Names, Toks, call, enc_dfa, enc_nfa, toks
@@ -37,13 +41,18 @@ LEVEL = "proof"
 RULE = ("cases = valid DFAs / NFAs (ε included); corpus of past defects, then every DFA with ≤2 states over "
         "{a,b} and every ε-NFA with 1 state over {a,b} / 2 states over {a} (thorough: 3-state ε-only/one-symbol "
         "NFAs), then shaped random automata with ≤4 (thorough ≤5) states: dense parallel/cyclic ε-transitions, "
-        "final = initial, several final states, unreachable and dead states, adversarial name pools; plus "
+        "final = initial, several final states, unreachable and dead states, adversarial name pools, alphabets "
+        "with digits, ',', '-', 'é' and the astral '𝒳'; sparse sources with 6–8 states (property oracle only); "
+        "a family of sources whose alphabet contains a reserved / white-space character (open finding); plus "
         "hand-made GNFAs with compound labels and malformed GNFA definitions. A case is non-trivial when the "
         "language is non-empty, the source has ≥2 states and the resulting regex contains an operator; "
         "distinct = distinct (kind, definition)")
 ASSUMPTIONS = [
-    "source automata are valid, their language is non-empty, and the alphabet contains no reserved regex "
-    "character / white space (to_regex embeds symbols verbatim; from_regex refuses such alphabets)",
+    "source automata are valid and their language is non-empty (empty languages are counted, not judged)",
+    "NOT assumed: an alphabet of literal characters. Sources whose alphabet contains a reserved regex character "
+    "or white space are generated on every run and judged by the same oracle; the property fails there and is "
+    "reported as the open finding C12:alphabet-has-reserved-regex-character (the positive theorems carry the "
+    "hypothesis `IsLit` for every symbol; C12_reserved_alphabet_fails proves that it cannot be dropped)",
     "state names are hashable; Python-specific equalities between names (1 == True == 1.0) are out of scope",
     "the set-iteration order that breaks ties in _find_min_connected_node is quantified over in the theorems "
     "and replayed (recorded from the real run) in the correspondence",
@@ -235,6 +244,100 @@ def property_on_real_code(ctx: Ctx, m, is_nfa: bool) -> Tuple[Optional[str], Opt
                f"NFA.from_regex({s!r}) accepts it = {b}")
 
 
+# --------------------------------------------------------------------------- open finding: reserved alphabets
+FINDING_RESERVED = "C12:alphabet-has-reserved-regex-character"
+
+# one representative of every kind of Python white space (`str.isspace`) that is not already reserved
+WHITE_SPACE = ["\n", "\x0b", "\x0c", "\r", "\x1c", "\x1f", "\x85", "\xa0", "\u1680", "\u2003", "\u2028",
+               "\u202f", "\u205f", "\u3000"]
+
+
+def non_literal_symbols(m) -> List[str]:
+    """Symbols of the source alphabet that the regex syntax cannot spell as themselves: the lexer reads a
+    reserved character as an operator / wildcard / blank and refuses other white space (= ¬ IsLit)."""
+    return sorted(a for a in m.input_symbols if a in RESERVED_CHARACTERS or a.isspace())
+
+
+def reserved_corpus() -> List[Tuple[Any, bool]]:
+    """For every reserved character c and a sample of white space: the DFA and the NFA
+    0 -c→ 1 -a→ 1 (language c·a*), plus the reviewer's two-state DFA over {'.', 'a'}."""
+    out: List[Tuple[Any, bool]] = []
+    for c in sorted(RESERVED_CHARACTERS) + WHITE_SPACE:
+        out.append((DFA(states={0, 1}, input_symbols={c, "a"}, transitions={0: {c: 1}, 1: {"a": 1}},
+                        initial_state=0, final_states={1}, allow_partial=True), False))
+        out.append((NFA(states={0, 1}, input_symbols={c, "a"}, transitions={0: {c: {1}}, 1: {"a": {1}, "": {0}}},
+                        initial_state=0, final_states={1}), True))
+    out.append((DFA(states={0, 1}, input_symbols={".", "a"},
+                    transitions={0: {"a": 0, ".": 1}, 1: {"a": 1, ".": 0}}, initial_state=0, final_states={1}),
+                False))
+    return out
+
+
+def check_reserved_source(ctx: Ctx, m, is_nfa: bool, origin: str):
+    """A source whose alphabet is not made of literal characters: the SAME property oracle as everywhere
+    else; a failure is the open finding (and only a failure is reported)."""
+    bad = non_literal_symbols(m)
+    if not bad:
+        raise InfraError("reserved-alphabet family produced a literal alphabet")
+    ctx.case(None)
+    ctx.stat(origin)
+    # model ↔ code also here: the executable model has no literal-alphabet restriction (the constructors
+    # validate with `reValidate`, the C10 lexer model, so LexerError / ValueError / InvalidRegexError of
+    # from_dfa / from_nfa on such alphabets are compared by class, and the strings exactly)
+    correspondence(ctx, m, is_nfa, describe(m, is_nfa), False, False)
+    if not language_nonempty(m, is_nfa):
+        ctx.stat("out_of_domain_empty_language")
+        return
+    s, failure = property_on_real_code(ctx, m, is_nfa)
+    if failure is None:
+        # e.g. the offending symbol is white space that no live transition uses
+        ctx.stat("reserved_alphabet_property_holds")
+        return
+    if "to_regex() raised" in failure:
+        ctx.stat("reserved_alphabet_fails_conversion_raises")
+    elif "rejected by the library's parser" in failure:
+        ctx.stat("reserved_alphabet_fails_parser_rejects_with_source_alphabet")
+    else:
+        ctx.stat("reserved_alphabet_fails_wrong_language")
+    # The parser refuses the source alphabet itself when it contains a reserved character.  Give the
+    # string its best chance: let from_regex infer the alphabet.  Only when that does not yield the
+    # source language either is the property violated (no way of reading the string back works).
+    if isinstance(s, str):
+        try:
+            n = NFA.from_regex(s)
+            sig = sorted(set(m.input_symbols) | set(n.input_symbols))
+            w = distinguishing_word(m, is_nfa, n, True, sig)
+            if w is None:
+                # the offending symbol occurs on no accepting path, so the string does not mention it
+                ctx.stat("reserved_alphabet_holds_with_inferred_alphabet")
+                return
+            ctx.stat("reserved_alphabet_inferred_alphabet_wrong_language")
+            a = m.accepts_input(w)
+            b = all(c in n.input_symbols for c in w) and n.accepts_input(w)
+            if a == b:
+                raise InfraError(f"oracle disagrees with accepts_input on {w!r} for {m!r} / {s!r}")
+            failure += (f"; with the inferred alphabet NFA.from_regex({s!r}) compiles but "
+                        f"{'accepts' if b else 'rejects'} {w!r} wrongly")
+        except InfraError:
+            raise
+        except Exception as e:  # noqa: BLE001
+            ctx.stat("reserved_alphabet_inferred_alphabet_raises_" + type(e).__name__)
+            failure += f"; with the inferred alphabet NFA.from_regex({s!r}) raises {type(e).__name__}"
+    ctx.stat("reserved_alphabet_property_fails")
+    ctx.prop_fail(f"{'NFA' if is_nfa else 'DFA'} over an alphabet containing {bad!r} (reserved in the regex "
+                  f"syntax / white space; to_regex has no escaping): {failure}",
+                  dict(describe(m, is_nfa), regex=s), FINDING_RESERVED)
+
+
+def rand_reserved_source(rng) -> Tuple[Any, bool]:
+    c = rng.choice(sorted(RESERVED_CHARACTERS) + WHITE_SPACE)
+    alpha = rng.choice([(c, "a"), (c,), ("a", c, "b"), (c, rng.choice(sorted(RESERVED_CHARACTERS)))])
+    alpha = tuple(dict.fromkeys(alpha))
+    if rng.random() < 0.5:
+        return gen.rand_dfa(rng, 3, alphabet=alpha, junk_rows=False), False
+    return gen.rand_nfa(rng, 3, alphabet=alpha), True
+
+
 # --------------------------------------------------------------------------- one source automaton
 def shape_stats(ctx: Ctx, m, is_nfa: bool, s: Optional[str], origin: str):
     ctx.stat(origin)
@@ -301,20 +404,30 @@ def shape_stats(ctx: Ctx, m, is_nfa: bool, s: Optional[str], origin: str):
 
 
 def check_source(ctx: Ctx, m, is_nfa: bool, origin: str, all_ties: bool = False):
-    drv = ctx.driver("drv_gnfa")
     case = describe(m, is_nfa)
     # --- the property itself, on the real code
     s_prop, failure = property_on_real_code(ctx, m, is_nfa)
     nontrivial = (failure is None and isinstance(s_prop, str) and len(m.states) >= 2
                   and language_nonempty(m, is_nfa) and any(c in s_prop for c in "*|?"))
     if is_nfa:
-        enc, st, _ = enc_nfa(m, sy=CODE)
+        enc, _, _ = enc_nfa(m, sy=CODE)
     else:
-        enc, st, _ = enc_dfa(m, sy=CODE)
+        enc, _, _ = enc_dfa(m, sy=CODE)
     ctx.case((case["kind"], enc) if nontrivial else None)
     shape_stats(ctx, m, is_nfa, s_prop, origin)
     if failure is not None:
         ctx.prop_fail(f"{case['kind']}: {failure}", dict(case, regex=s_prop), None)
+    correspondence(ctx, m, is_nfa, case, failure is not None, all_ties)
+
+
+def correspondence(ctx: Ctx, m, is_nfa: bool, case: dict, prop_failed: bool, all_ties: bool):
+    """Model ↔ code on one source: GNFA_BUILD, GNFA_TO_REGEX (real tie-breaks), optionally every tie-break.
+    Differences are not reported when the property already failed on this input (one report per input)."""
+    drv = ctx.driver("drv_gnfa")
+    if is_nfa:
+        enc, st, _ = enc_nfa(m, sy=CODE)
+    else:
+        enc, st, _ = enc_dfa(m, sy=CODE)
     # --- GNFA_BUILD
     natmap = [st(k) for k in range(len(st.order) + 3)]
     rb = call(lambda: (GNFA.from_nfa if is_nfa else GNFA.from_dfa)(m))
@@ -323,10 +436,11 @@ def check_source(ctx: Ctx, m, is_nfa: bool, origin: str, all_ties: bool = False)
     mb = t.res(lambda: read_gnfa(t))
     ib = ("ok", gnfa_plain(rb[1], st)) if rb[0] == "ok" else rb
     if ib != mb:
-        if failure is None:
+        if not prop_failed:
             ctx.corr_diff("GNFA_BUILD", case, ib, mb)
         return
     if rb[0] != "ok":
+        ctx.stat("gnfa_build_both_raise_" + rb[1])
         return
     g = rb[1]
     # --- GNFA_TO_REGEX with the real tie-breaks
@@ -344,7 +458,7 @@ def check_source(ctx: Ctx, m, is_nfa: bool, origin: str, all_ties: bool = False)
     mr = t.res(rd)
     ir = ("ok", (rips, rr[1])) if rr[0] == "ok" else rr
     if ir != mr:
-        if failure is None:
+        if not prop_failed:
             ctx.corr_diff("GNFA_TO_REGEX", dict(case, rips=[repr(q) for q in rec.rips]), ir, mr)
         return
     if ctx.evaluations % 499 == 1:
@@ -358,7 +472,7 @@ def check_source(ctx: Ctx, m, is_nfa: bool, origin: str, all_ties: bool = False)
         ctx.stat("all_tie_breaks_checked")
         ctx.stat("all_tie_breaks_distinct_results", len({repr(o) for o in outs}))
         if rr not in outs:
-            if failure is None:
+            if not prop_failed:
                 ctx.corr_diff("GNFA_TO_REGEX_ALL", case, rr, outs)
 
 
@@ -441,6 +555,50 @@ def check_direct(ctx: Ctx, params: dict, origin: str):
         ctx.corr_diff("GNFA_DIRECT", dict(case, rips=[repr(q) for q in rec.rips]), ir, mr)
 
 
+BRACE_LABELS = ["a{1,1}", "{|,|}", "a{,}", "{", "}", "a{1,a}", "a{2,1}", "a{1,2}", "{1,2}", "a{-1,2}", "a{ 1,2}",
+                "a{1,2", "(a){,1}", "a|{", "a{,}}", "1,", "a{1,2}{1,2}", "", "a", "()", "a{1_0,}", ","]
+
+
+def rand_brace_gnfa(rng) -> dict:
+    """GNFA definitions over an alphabet containing `{ , }` and digits: labels on which `re._validate`
+    runs the quantifier rule (ValueError of int(), InvalidRegexError of the bound checks, valid quantifiers)."""
+    n_inner = rng.randint(0, 2)
+    inner = list(range(n_inner))
+    qi, qf = n_inner, n_inner + 1
+    states = inner + [qi, qf]
+    trans = {}
+    for p in states:
+        if p == qf:
+            continue
+        trans[p] = {q: (None if rng.random() < 0.4 else rng.choice(BRACE_LABELS)) for q in states if q != qi}
+    return dict(states=set(states), input_symbols=set(rng.choice(["a{},12", "a{,}1", "{},a12-_ "])),
+                transitions=trans, initial_state=qi, final_state=qf)
+
+
+RE_VALIDATE_CHARS = "ab()|*?&+^. \t\n{},12-_"
+
+
+def check_re_validate(ctx: Ctx, s: str):
+    """`re._validate(s)` (True / False / escaping exception) vs the model `reValidate`; on strings without
+    `{` also vs the stand-alone model `simpleRxValid` that the theorems of Props/C12.lean mention."""
+    import automata.regex.regex as re_mod
+    drv = ctx.driver("drv_gnfa")
+    ctx.case(None)
+    impl = call(lambda: bool(re_mod._validate(s)))
+    ctx.stat("re_validate_" + (str(impl[1])))
+
+    def ask(cmd):
+        t = Toks(drv.ask(toks(cmd, enc_str(s))))
+        return t.res(lambda: t.next() == "1")
+    mod = ask("RX_VALID")
+    if impl != mod:
+        ctx.corr_diff("RE_VALIDATE", dict(s=s), impl, mod)
+    if "{" not in s:
+        mod2 = ask("RX_VALID_SIMPLE")
+        if impl != mod2:
+            ctx.corr_diff("RE_VALIDATE_SIMPLE", dict(s=s), impl, mod2)
+
+
 BAD_LABELS = ["a|", "|a", "(", ")", "a)(", "*a", "a||b", "(|a)", "?", "z", "a z", "a+", "(a", "a**", "a?*", "()(",
               "a b", " ", "a\tb"]
 
@@ -487,11 +645,65 @@ def mutate_def(rng, params: dict) -> dict:
 
 
 # --------------------------------------------------------------------------- generators of sources
+# literal alphabets: letters, digits, 'é', and characters that look special but are NOT reserved in the
+# library's regex syntax (',' and '-' — ',' only means something inside `{m,n}`), the astral '𝒳' (U+1D4B3)
+C12_ALPHABETS = list(gen.ALPHABETS[:5]) + [(",", "-"), ("7", "a", ","), ("𝒳", "a"), ("-", "𝒳", "7", ",")]
+
+
+def sparse_source(rng) -> Tuple[Any, bool]:
+    """A source with 6–8 states and few transitions (a random spanning path from the initial state, a few
+    extra / back / ε edges): long elimination runs whose regex stays small enough for the oracle."""
+    n = rng.randint(6, 8)
+    names = gen.name_pool(rng, n)[:n]
+    n = len(names)
+    sy = list(rng.choice(C12_ALPHABETS))
+    order = list(names)
+    rng.shuffle(order)
+    is_nfa = rng.random() < 0.6
+    edges: List[Tuple[Any, str, Any]] = []
+    for p, q in zip(order, order[1:]):
+        if rng.random() < 0.85:
+            edges.append((p, rng.choice(sy), q))
+    for _ in range(rng.randint(1, 4)):
+        edges.append((rng.choice(order), rng.choice(sy), rng.choice(order)))
+    if is_nfa:
+        for _ in range(rng.randint(0, 3)):
+            edges.append((rng.choice(order), "", rng.choice(order)))
+    rng.shuffle(edges)
+    finals = {order[-1]} | {q for q in order if rng.random() < 0.15}
+    if is_nfa:
+        tn: Dict[Any, Dict[str, set]] = {}
+        for p, a, q in edges:
+            tn.setdefault(p, {}).setdefault(a, set()).add(q)
+        tn.setdefault(order[0], {})
+        return NFA(states=set(names), input_symbols=set(sy), transitions=tn, initial_state=order[0],
+                   final_states=finals), True
+    td: Dict[Any, Dict[str, Any]] = {q: {} for q in names}
+    for p, a, q in edges:
+        td[p].setdefault(a, q)
+    keys = list(td)
+    rng.shuffle(keys)
+    return DFA(states=set(names), input_symbols=set(sy), transitions={k: td[k] for k in keys},
+               initial_state=order[0], final_states=finals, allow_partial=True), False
+
+
+def check_property_only(ctx: Ctx, m, is_nfa: bool, origin: str):
+    """The property on the real code, no model run (sources too large for the all-pairs driver protocol
+    to be worth it; the theorems are size-independent)."""
+    s, failure = property_on_real_code(ctx, m, is_nfa)
+    nontrivial = (failure is None and isinstance(s, str) and language_nonempty(m, is_nfa)
+                  and any(c in s for c in "*|?"))
+    ctx.case((origin, repr(m)) if nontrivial else None)
+    shape_stats(ctx, m, is_nfa, s, origin)
+    if failure is not None:
+        ctx.prop_fail(f"{'NFA' if is_nfa else 'DFA'}: {failure}", dict(describe(m, is_nfa), regex=s), None)
+
+
 def eps_heavy_nfa(rng, max_states: int = 4) -> NFA:
     """NFA with dense parallel / cyclic ε-transitions and few symbol transitions."""
     n = rng.randint(2, max_states)
     names = gen.name_pool(rng, n)[:n]
-    sy = list(rng.choice([("a",), ("a", "b"), ("0", "1")]))
+    sy = list(rng.choice([("a",), ("a", "b"), ("0", "1"), (",", "7"), ("-", "𝒳")]))
     p_eps = rng.choice([0.3, 0.5, 0.7])
     p_sym = rng.choice([0.1, 0.25, 0.4])
     trans: Dict[Any, Dict[str, set]] = {}
@@ -636,13 +848,13 @@ def run(ctx: Ctx):
     for i in range(ctx.budget(1500, 12000)):
         check_source(ctx, eps_heavy_nfa(rng, big), True, "random_eps_heavy_nfa", all_ties=(i % 4 == 0))
     for i in range(ctx.budget(1500, 12000)):
-        n = gen.rand_nfa(rng, big, alphabet=rng.choice(gen.ALPHABETS[:5]), min_states=1)
+        n = gen.rand_nfa(rng, big, alphabet=rng.choice(C12_ALPHABETS), min_states=1)
         if i % 8 == 3:
             n = with_junk_row(rng, n, True)
             ctx.stat("source_with_junk_row")
         check_source(ctx, n, True, "random_nfa", all_ties=(i % 4 == 0))
     for i in range(ctx.budget(1500, 12000)):
-        d = gen.rand_dfa(rng, big, alphabet=rng.choice(gen.ALPHABETS[:5]))
+        d = gen.rand_dfa(rng, big, alphabet=rng.choice(C12_ALPHABETS))
         if i % 8 == 3:
             d = with_junk_row(rng, d, False)
             ctx.stat("source_with_junk_row")
@@ -656,6 +868,13 @@ def run(ctx: Ctx):
         if rng.random() < 0.3:
             p = mutate_def(rng, p)
         check_direct(ctx, p, "malformed_gnfa")
+    for _ in range(ctx.budget(300, 4000)):
+        check_direct(ctx, rand_brace_gnfa(rng), "brace_gnfa")
+    # 3b. re._validate itself: the shared model (C10 lexer + validate_tokens) and the stand-alone one
+    for s in BRACE_LABELS + BAD_LABELS + LABEL_POOL:
+        check_re_validate(ctx, s)
+    for _ in range(ctx.budget(1500, 20000)):
+        check_re_validate(ctx, "".join(rng.choice(RE_VALIDATE_CHARS) for _ in range(rng.randint(0, 9))))
     # 4. _isbracket_req
     for _ in range(ctx.budget(500, 10000)):
         s = "".join(rng.choice("ab()|*?") for _ in range(rng.randint(0, 10)))
@@ -665,6 +884,17 @@ def run(ctx: Ctx):
         ctx.stat("isbracket_" + str(impl))
         if impl != mod:
             ctx.corr_diff("ISBRACKET", dict(s=s), impl, mod)
+    # 5. sparse sources with 6–8 states: the property on the real code only
+    for _ in range(ctx.budget(150, 2000)):
+        m, is_nfa = sparse_source(rng)
+        check_property_only(ctx, m, is_nfa, "sparse_6to8_states")
+    # 6. alphabets with a reserved regex character / white space: inside the property's domain, the
+    #    property FAILS there (open finding, see FINDING_RESERVED); same oracle as everywhere else
+    for m, is_nfa in reserved_corpus():
+        check_reserved_source(ctx, m, is_nfa, "reserved_alphabet_corpus")
+    for _ in range(ctx.budget(80, 800)):
+        m, is_nfa = rand_reserved_source(rng)
+        check_reserved_source(ctx, m, is_nfa, "reserved_alphabet_random")
 
 
 def search(ctx: Ctx):
@@ -675,9 +905,9 @@ def search(ctx: Ctx):
         if k == 0:
             m, is_nfa = eps_heavy_nfa(rng, 5), True
         elif k == 1:
-            m, is_nfa = gen.rand_nfa(rng, 5, alphabet=rng.choice(gen.ALPHABETS[:5])), True
+            m, is_nfa = gen.rand_nfa(rng, 5, alphabet=rng.choice(C12_ALPHABETS)), True
         else:
-            m, is_nfa = gen.rand_dfa(rng, 5, alphabet=rng.choice(gen.ALPHABETS[:5])), False
+            m, is_nfa = gen.rand_dfa(rng, 5, alphabet=rng.choice(C12_ALPHABETS)), False
         s, failure = property_on_real_code(ctx, m, is_nfa)
         ctx.case(None)
         ctx.stat("search")
